@@ -76,7 +76,11 @@ func runScripted(rep *Report, leanMode string, mk func() Impl, cases []Case, ora
 			hi = len(cases)
 		}
 		part := cases[lo:hi]
+		t0 := time.Now()
 		goOuts, leanOuts, bad, err := differential(leanMode, mk, part)
+		if os.Getenv("VERIF_DEBUG") != "" {
+			fmt.Fprintf(os.Stderr, "DEBUG differential of %d cases: %v\n", len(part), time.Since(t0))
+		}
 		if err != nil {
 			rep.Violations = append(rep.Violations, Violation{Property: rep.Property, Kind: "correspondence",
 				Clause: "lean driver failed: " + err.Error()})
